@@ -145,6 +145,9 @@ func (m *tkMod) op(e *lib.Env, st Step) (string, lib.Outcome) {
 			return "TkOther", out
 		}
 		term := lib.App("TkMint", lib.ZB(feeFactor(sym)), lib.ZI(e.Balance(a0, "stake")))
+		if tok, err := k.GetToken(e.Ctx, sym); err != nil || !tok.GetOwner().Equals(a0) {
+			term = "TkOther" // ownership was transferred away: the mint is rejected before any fee is computed
+		}
 		out := e.Deliver(&tokenv1.MsgMintToken{Coin: sdk.NewCoin("u"+sym, sdkmath.NewIntFromBigInt(bi(st.N[0]))), Owner: a0.String()})
 		return term, out
 	}
@@ -220,7 +223,7 @@ func genTK(r *lib.Rand, h *History, i int) {
 		if r.Chance(1, 5) {
 			switch r.Intn(3) {
 			case 0:
-				h.Steps = append(h.Steps, Step{"edit", []string{big.NewInt(r.Range(1000, 2000000000)).String()}})
+				h.Steps = append(h.Steps, Step{"edit", []string{big.NewInt(r.Range(2000, 2000000000)).String()}})
 			case 1:
 				h.Steps = append(h.Steps, Step{"burn", []string{big.NewInt(r.Range(1, 1000)).String()}})
 			case 2:
